@@ -3,10 +3,36 @@ import os, re, subprocess, sys
 from vlib import common as C
 from vlib.simlib import SIM_WRAPS
 
+# clean (exit 0 + KNOWN-FINDING lines) at seeds 1..7 quick and seed 1 thorough on 2026-09-26
+MANIFEST = {
+    "category": "proof",
+    "text": "PROOF for the helper layer and the send-path skeleton, FAULT ENUMERATION for the catalogue. Proved in Lean for every "
+            "allocation oracle (any pattern of failing requests) and all arguments, about a transcription M of coap_pdu_init / "
+            "coap_pdu_resize / coap_pdu_check_resize / coap_add_token / coap_add_option (append branch) / coap_add_data / "
+            "coap_new_optlist+insert / coap_delete_optlist / coap_add_optlist_pdu / coap_new_string|str_const|bin_const and of the "
+            "ownership skeleton of coap_send -> coap_send_internal -> {sent & freed | queued node owns it | delayed node owns it | "
+            "error & freed}: failure_atomic (a failing primitive leaves the PDU and the ledger as they were), no_leak_on_failure, "
+            "send_consumes_pdu (released exactly once or owned by exactly one node; COAP_INVALID_MID only with the PDU released), "
+            "next_op_succeeds, alloc_count_matches, and ledger_replay / script_ledger_ok (for every script and oracle M's ledger is "
+            "exactly what the verified monitor ledgerOk computes from M's trace). M is tied to the compiled code by running generated "
+            "helper scripts under every single failing request index (and sampled pairs) on both and comparing return values, request "
+            "counts, PDU bytes, alloc_size, queues and the allocation trace event by event. NOT proved, enumerated only: the scenarios "
+            "uri, pdu, request/response, Block1, Block2, observe, set-up/tear-down, OSCORE, 5.08 are run on the real code with every "
+            "single allocation request failing (thorough: every pair), each followed by a canary exchange on the same contexts, and "
+            "judged by ASan/UBSan, the verified ledger monitor on the REAL allocation trace, LSan, PDU-consumed evidence and the canary; "
+            "this searches for a failing (scenario, k) and validates nothing beyond what it executes.",
+    "note": "Nine libcoap defects found and fixed on the way (7f66d7b, 47c32b4, f9e8f3f, 6ae2552, 4fd6ca8, 9615ea7, 5853ae9, 0fee4a9, "
+            "e75b657), three open findings (OSCORE configuration parser ignores allocation failures; Block2 SINGLE_BODY hands a single "
+            "block to the application; Block1 server keeps a block marked received whose bytes were not stored). Only requests made "
+            "through coap_malloc_type/coap_realloc_type are failed (uthash's malloc exits on OOM; GnuTLS/libc untouched). Trusted: "
+            "Lean kernel (+ propext, Classical.choice, Quot.sound), harness + allocator wrap + virtual-time epoll_wait + judge, "
+            "addr2line for site names, the hand transcription M (checked on the scripts run).",
+    "design_ref": "DESIGN.md §4 C18, design/C18.md",
+}
 LEAN_MODULES = ["CoapVerif.Props.C18"]
 NAMESPACE = "Coap.C18"
-REQUIRED_THEOREMS = ["failure_atomic", "no_leak_on_failure", "send_consumes_pdu", "next_op_succeeds", "alloc_count_matches",
-                     "ledger_replay", "script_ledger_ok"]
+REQUIRED_THEOREMS = ["failure_atomic", "no_leak_on_failure", "send_consumes_pdu", "send_error_keeps_slot", "next_op_succeeds",
+                     "alloc_count_matches", "ledger_replay", "script_ledger_ok", "script_verdict"]
 RULE = ("(1) helper-layer scripts `ahelp k1 k2 <ops>`: random sequences (4..16 calls) of coap_pdu_init / add_token / add_option "
         "(ascending numbers, lengths on both sides of 12/13, 268/269) / add_data / pdu_resize / pdu_check_resize / delete_pdu / "
         "new_optlist+insert_optlist / add_optlist_pdu / delete_optlist / new_string|str_const|bin_const / delete / coap_send "
